@@ -852,3 +852,190 @@ Example idxs_of_masks_examples :
   idxs_of_masks [true; true] = [0] /\ idxs_of_masks [true; false; false] = [1; 2] /\
   idxs_of_masks [false; false] = [0; 1].
 Proof. vm_compute. auto. Qed.
+
+(* ------------------------------------------------------------------------------------------ *)
+(* Intersection.fetch ITSELF, generated from its source text (Gen/Source.v: g_inter_fetch), equals
+   the Inter case of Model/Expr.v's fetch.  The hand transcription idxs_of_masks above is now a
+   stepping stone only: the generated emit_indices term is proved equal to it. *)
+From CG Require Import Model.Expr Proofs.GenEq.
+
+(* a frozenset built from an ascending duplicate-free list is that list *)
+Lemma fs_insert_last : forall acc lo hi x, asc_in lo hi acc -> hi <= x -> fs_insert x acc = acc ++ [x].
+Proof.
+  induction acc as [|i r IH]; intros lo hi x Ha Hx; [reflexivity|].
+  cbn [asc_in] in Ha. destruct Ha as [Hi Hr]. cbn [fs_insert app].
+  destruct (Z.ltb_spec x i); [lia|]. destruct (Z.eqb_spec x i); [lia|].
+  rewrite (IH (i + 1) hi x Hr Hx). reflexivity.
+Qed.
+
+Lemma asc_in_snoc : forall acc lo mid x,
+  asc_in lo mid acc -> mid <= x -> lo <= x -> asc_in lo (x + 1) (acc ++ [x]).
+Proof.
+  induction acc as [|i r IH]; intros lo mid x Ha Hx Hlo; cbn [app asc_in].
+  - split; [lia|exact I].
+  - cbn [asc_in] in Ha. destruct Ha as [Hi Hr]. split; [lia|].
+    apply (IH (i + 1) mid x Hr Hx). lia.
+Qed.
+
+Lemma fs_fold_asc : forall l acc lo mid hi,
+  lo <= mid -> asc_in lo mid acc -> asc_in mid hi l ->
+  fold_left (fun acc x => fs_insert x acc) l acc = acc ++ l.
+Proof.
+  induction l as [|x r IH]; intros acc lo mid hi Hlm Ha Hl; cbn [fold_left].
+  - rewrite app_nil_r. reflexivity.
+  - cbn [asc_in] in Hl. destruct Hl as [Hx Hr].
+    rewrite (fs_insert_last acc lo mid x Ha) by lia.
+    rewrite (IH (acc ++ [x]) lo (x + 1) hi); [rewrite <- app_assoc; reflexivity|lia| |exact Hr].
+    apply (asc_in_snoc acc lo mid x Ha); lia.
+Qed.
+
+Theorem fs_of_list_asc : forall lo hi l, asc_in lo hi l -> fs_of_list l = l.
+Proof.
+  intros lo hi l Hl. unfold fs_of_list.
+  apply (fs_fold_asc l [] lo lo hi); [lia|exact I|exact Hl].
+Qed.
+Print Assumptions fs_of_list_asc.
+
+(* the emit_indices term of the generated fetch, verbatim *)
+Definition g_emit_indices (mask_sources : list bool) (n : nat) : list Z :=
+  if (forallb (fun b_ => b_) mask_sources) then
+    (fs_of_list [0])
+  else
+    if (existsb (fun b_ => b_) mask_sources) then
+      (fs_of_list (map (fun '(i, is_mask) => i) (filter (fun '(i, is_mask) => (negb is_mask)) (py_enumerate mask_sources))))
+    else
+      (fs_of_list (zrange (Z.of_nat n))).
+
+Lemma g_inter_fetch_unfold {TL : Type} fuel (srcs : list TL) is_m
+  (tlf : TL -> option Z -> option Z -> bool -> list ivl) a b rv :
+  g_inter_fetch fuel srcs is_m tlf a b rv =
+  if negb (nonempty srcs) then RDone []
+  else
+    let ei := g_emit_indices (map is_m srcs) (length srcs) in
+    if rv then
+      res_bind (g_inter_sweep fuel (map (fun s => g_negate_stream (tlf s a b true)) srcs) ei)
+               (fun r => RDone (g_negate_stream r))
+    else
+      res_bind (g_inter_sweep fuel (map (fun s => tlf s a b false) srcs) ei) (fun r => RDone r).
+Proof. reflexivity. Qed.
+
+Lemma g_emit_indices_eq masks : g_emit_indices masks (length masks) = idxs_of_masks masks.
+Proof.
+  unfold g_emit_indices, idxs_of_masks.
+  destruct (forallb (fun b => b) masks); [reflexivity|].
+  destruct (existsb (fun b => b) masks).
+  - assert (E : map (fun '(i, is_mask) => i)
+                  (filter (fun '(i, is_mask) => negb is_mask) (py_enumerate masks))
+                = map fst (filter (fun p : Z * bool => negb (snd p)) (py_enumerate masks))).
+    { rewrite (filter_ext (fun '(i, is_mask) => negb is_mask) (fun p : Z * bool => negb (snd p)))
+        by (intros [i m]; reflexivity).
+      apply map_ext. intros [i m]. reflexivity. }
+    rewrite E, py_enumerate_enumk.
+    apply (fs_of_list_asc _ _ _ (enumk_asc _ masks 0%nat)).
+  - unfold zrange. rewrite Nat2Z.id.
+    apply (fs_of_list_asc _ _ _ (range_asc (length masks) 0%nat)).
+Qed.
+
+Lemma total_len_map_neg {TL : Type} (f : TL -> list ivl) : forall l,
+  total_len (map (fun s => neg_stream (f s)) l) = total_len (map f l).
+Proof.
+  induction l as [|s r IH]; [reflexivity|].
+  unfold total_len in *. cbn [map fold_right]. rewrite IH. unfold neg_stream. rewrite map_length.
+  reflexivity.
+Qed.
+
+(* HEADLINE *)
+Theorem g_inter_fetch_eq : forall (TL : Type) fuel (srcs : list TL) (is_m : TL -> bool)
+    (tlf : TL -> option Z -> option Z -> bool -> list ivl) a b rv,
+  (total_len (map (fun s => tlf s a b rv) srcs) < fuel)%nat ->
+  g_inter_fetch fuel srcs is_m tlf a b rv =
+  RDone (match srcs with
+         | [] => []
+         | _ => let sel := emit_sel (map is_m srcs) in
+                if rv then neg_stream (inter_sweep (map (fun s => neg_stream (tlf s a b true)) srcs) sel)
+                else inter_sweep (map (fun s => tlf s a b false) srcs) sel
+         end).
+Proof.
+  intros TL fuel srcs is_m tlf a b rv Hfuel.
+  rewrite g_inter_fetch_unfold.
+  destruct srcs as [|s0 r]; [reflexivity|].
+  cbn [nonempty negb]. remember (s0 :: r) as srcs eqn:Es.
+  assert (Hne : map is_m srcs <> []) by (rewrite Es; discriminate).
+  cbv zeta.
+  replace (g_emit_indices (map is_m srcs) (length srcs)) with (idxs_of_masks (map is_m srcs))
+    by (rewrite <- (map_length is_m srcs); symmetry; apply g_emit_indices_eq).
+  assert (Hsel : forall (streams : list (list ivl)), length streams = length srcs ->
+            inter_sweep streams (fun i => zmem (Z.of_nat i) (idxs_of_masks (map is_m srcs)))
+            = inter_sweep streams (emit_sel (map is_m srcs))).
+  { intros streams Hl. apply inter_sweep_sel_ext. intros i Hi.
+    apply idxs_of_masks_sel. rewrite map_length. lia. }
+  pose proof (idxs_of_masks_ok (map is_m srcs) Hne) as Hok. rewrite map_length in Hok.
+  destruct rv.
+  - rewrite (map_ext (fun s => g_negate_stream (tlf s a b true))
+                     (fun s => neg_stream (tlf s a b true))
+                     (fun s => g_negate_stream_eq _)).
+    rewrite g_inter_sweep_eq.
+    + cbn [res_bind]. rewrite g_negate_stream_eq, Hsel by apply map_length. reflexivity.
+    + rewrite map_length. exact Hok.
+    + rewrite total_len_map_neg. exact Hfuel.
+  - rewrite g_inter_sweep_eq.
+    + cbn [res_bind]. rewrite Hsel by apply map_length. reflexivity.
+    + rewrite map_length. exact Hok.
+    + exact Hfuel.
+Qed.
+Print Assumptions g_inter_fetch_eq.
+
+(* the expression level: Intersection.fetch over operands fetched by the model is the model's
+   fetch of the intersection *)
+Corollary g_inter_fetch_is_model : forall env es a b rv fuel,
+  (total_len (map (fun s => fetch env s a b rv) es) < fuel)%nat ->
+  g_inter_fetch fuel es is_mask (fetch env) a b rv = RDone (fetch env (Inter es) a b rv).
+Proof.
+  intros env es a b rv fuel Hfuel.
+  rewrite (g_inter_fetch_eq expr fuel es is_mask (fetch env) a b rv Hfuel).
+  destruct es; reflexivity.
+Qed.
+Print Assumptions g_inter_fetch_is_model.
+
+Definition ex_A : expr :=
+  Stored [mkI (Some 12) (Some 20) (Rich 2); mkI (Some 0) (Some 10) (Rich 1)].
+Definition ex_B : expr := Stored [mkI (Some 5) (Some 15) (Rich 3)].
+
+(* forward run, two stored operands (ex_A stored out of order), both emit *)
+Example g_inter_fetch_example_fwd :
+  g_inter_fetch 4 [ex_A; ex_B] is_mask (fetch []) (Some 0) (Some 30) false
+  = RDone [mkI (Some 5) (Some 10) (Rich 1); mkI (Some 5) (Some 10) (Rich 3);
+           mkI (Some 12) (Some 15) (Rich 2); mkI (Some 12) (Some 15) (Rich 3)]
+  /\ fetch [] (Inter [ex_A; ex_B]) (Some 0) (Some 30) false
+     = [mkI (Some 5) (Some 10) (Rich 1); mkI (Some 5) (Some 10) (Rich 3);
+        mkI (Some 12) (Some 15) (Rich 2); mkI (Some 12) (Some 15) (Rich 3)].
+Proof. vm_compute. split; reflexivity. Qed.
+
+(* reverse run: the sweep over the time-negated reverse streams, negated back *)
+Example g_inter_fetch_example_rev :
+  g_inter_fetch 4 [ex_A; ex_B] is_mask (fetch []) (Some 0) (Some 30) true
+  = RDone [mkI (Some 12) (Some 15) (Rich 2); mkI (Some 12) (Some 15) (Rich 3);
+           mkI (Some 5) (Some 10) (Rich 1); mkI (Some 5) (Some 10) (Rich 3)]
+  /\ fetch [] (Inter [ex_A; ex_B]) (Some 0) (Some 30) true
+     = [mkI (Some 12) (Some 15) (Rich 2); mkI (Some 12) (Some 15) (Rich 3);
+        mkI (Some 5) (Some 10) (Rich 1); mkI (Some 5) (Some 10) (Rich 3)].
+Proof. vm_compute. split; reflexivity. Qed.
+
+(* reverse run with a mask operand (a complement): only the stored operand emits *)
+Example g_inter_fetch_example_mask_rev :
+  g_inter_fetch 5 [ex_A; Compl ex_B] is_mask (fetch []) (Some 0) (Some 30) true
+  = RDone [mkI (Some 15) (Some 20) (Rich 2); mkI (Some 0) (Some 5) (Rich 1)].
+Proof. vm_compute. reflexivity. Qed.
+
+(* the same through the corollary: its fuel hypothesis holds of these instances *)
+Example g_inter_fetch_example_thm :
+  g_inter_fetch 4 [ex_A; ex_B] is_mask (fetch []) (Some 0) (Some 30) true
+  = RDone (fetch [] (Inter [ex_A; ex_B]) (Some 0) (Some 30) true).
+Proof. apply g_inter_fetch_is_model. vm_compute. lia. Qed.
+
+(* the bound is sharp here: three events, fuel three is not enough, and the result is the explicit
+   RFuel, never a truncated list; no operands: [] without fuel *)
+Example g_inter_fetch_fuel :
+  g_inter_fetch 3 [ex_A; ex_B] is_mask (fetch []) (Some 0) (Some 30) true = RFuel
+  /\ g_inter_fetch 0 (@nil expr) is_mask (fetch []) None None true = RDone [].
+Proof. vm_compute. split; reflexivity. Qed.
